@@ -304,6 +304,13 @@ func (u *Unit) loadCell(st *State, c *Cell) Val {
 		st.cells[c.ID] = v
 		return v
 	}
+	if c.Sym && strings.HasPrefix(c.Name, "list") && types.Identical(c.T, types.Universe.Lookup("error").Type()) {
+		// A-ERRLIST: the elements of an []error a function returns are non-nil
+		u.Assumed["A-ERRLIST: the elements of a returned []error are non-nil errors"]++
+		v = IfaceV{Nil: TFalse, Opq: u.newInt(c.Name + "_if")}
+		st.cells[c.ID] = v
+		return v
+	}
 	if c.Sym || st.symCells[c.ID] {
 		v = u.freshVal(st, c.T, c.Name, c.Old && c.Sym)
 	} else {
